@@ -74,6 +74,75 @@ Theorem C18_default_branch_le4 : forall sig start,
 Proof. exact matrix_basis_default_branch_le4. Qed.
 Print Assumptions C18_default_branch_le4.
 
+(* ================= EVERY DIMENSION (Theory/Universal.v, Theory/MatrixAll.v): no enumeration ================= *)
+From KV Require Import Theory.WF Theory.SignBits Theory.Universal Theory.MatrixAll.
+
+(* stage 1, pure algebra: in ANY associative unital structure with integer scalars (given on a carrier predicate ok)
+   whose elements g c satisfy the Clifford relations of a well-formed algebra A, the ordered products along the
+   table's spellings multiply exactly like kingdon's sign table *)
+Theorem C18_universal_property : forall (A : alg), wf_alg A = true ->
+  forall (T : Type) (ok : T -> Prop) (mul : T -> T -> T) (one : T) (zsc : Z -> T -> T) (g : nat -> T),
+  ok one -> (forall c, In c (alg_vecs A) -> ok (g c)) -> (forall x y, ok x -> ok y -> ok (mul x y)) ->
+  (forall x y z, ok x -> ok y -> ok z -> mul (mul x y) z = mul x (mul y z)) ->
+  (forall x, ok x -> mul one x = x) -> (forall x, ok x -> mul x one = x) ->
+  (forall a x y, ok x -> ok y -> mul (zsc a x) y = zsc a (mul x y)) ->
+  (forall a x y, ok x -> ok y -> mul x (zsc a y) = zsc a (mul x y)) ->
+  (forall x, ok x -> zsc 1 x = x) -> (forall a b x, ok x -> zsc a (zsc b x) = zsc (a * b) x) ->
+  (forall c, In c (alg_vecs A) -> mul (g c) (g c) = zsc (metric A c) one) ->
+  (forall c e, In c (alg_vecs A) -> In e (alg_vecs A) -> c <> e -> mul (g c) (g e) = zsc (-1) (mul (g e) (g c))) ->
+  forall I J, 0 <= I < alg_len A -> 0 <= J < alg_len A ->
+  mul (blade A T mul one g I) (blade A T mul one g J) = zsc (sgn A I J) (blade A T mul one g (Z.lxor I J)).
+Proof. exact universal_hom. Qed.
+Print Assumptions C18_universal_property.
+
+(* stage 2: the Kronecker generators Es of matrix_rep satisfy the Clifford relations, for every signature over
+   {1,-1,0} of every length: E_i E_i = sig_i Id, E_i E_j = - E_j E_i, all 2^d x 2^d *)
+Theorem C18_kron_generators_clifford : forall sig,
+  Forall (fun s => s = 1 \/ s = -1 \/ s = 0) sig ->
+  let d := length sig in
+  let Es := gen_mats_from 0 d (sig_mats sig) in
+  let Id := kron_all (repeat I2 d) in
+  length Es = d /\
+  (forall i, (i < d)%nat ->
+     wfm (2 ^ d) (nth i Es []) /\ mat_mul (nth i Es []) (nth i Es []) = mat_scale (nth i sig 0) Id) /\
+  (forall i j, (i < d)%nat -> (j < d)%nat -> i <> j ->
+     mat_mul (nth i Es []) (nth j Es []) = mat_scale (-1) (mat_mul (nth j Es []) (nth i Es []))).
+Proof. exact kron_generators_clifford. Qed.
+Print Assumptions C18_kron_generators_clifford.
+
+(* stage 3: the blade-level check (M(e_I) M(e_J) = signs[I,J] M(e_(I xor J)) for all pairs, column 0 of M_i = e_i,
+   shapes) holds in EVERY well-formed algebra of dimension >= 1: any signature ordering, start index, default or
+   admissible custom basis; in particular in every default algebra *)
+Theorem C18_blade_homomorphism_all : forall A, wf_alg A = true -> (1 <= a_d A)%nat -> hom_ok A = true.
+Proof. exact hom_ok_all_dim. Qed.
+Print Assumptions C18_blade_homomorphism_all.
+Theorem C18_blade_homomorphism_default : forall sig start,
+  (1 <= length sig)%nat -> Forall (fun s => s = 1 \/ s = -1 \/ s = 0) sig -> 0 <= start ->
+  hom_ok (mk_default sig start false) = true.
+Proof. exact hom_ok_default_dim. Qed.
+Print Assumptions C18_blade_homomorphism_default.
+
+(* the representation is faithful for all multivectors of all well-formed algebras / all default algebras *)
+Theorem C18_faithful_all : forall A (x y : mv Z), wf_alg A = true -> (1 <= a_d A)%nat ->
+  NoDup (keys x) -> incl (keys x) (canon_keys A) -> NoDup (keys y) -> incl (keys y) (canon_keys A) ->
+  asmatrix A (gp Zops A x y) = mat_mul (asmatrix A x) (asmatrix A y) /\
+  asmatrix A (add Zops A x y) = mat_add (asmatrix A x) (asmatrix A y) /\
+  mat_col 0 (asmatrix A x) = map (fun k => coeff Zops k x) (canon_keys A) /\
+  frommatrix A (asmatrix A x) = map (fun k => (k, coeff Zops k x)) (canon_keys A) /\
+  (asmatrix A x = asmatrix A y -> forall k, coeff Zops k x = coeff Zops k y).
+Proof. exact faithful_all_dim. Qed.
+Print Assumptions C18_faithful_all.
+Theorem C18_faithful_default : forall sig start, let A := mk_default sig start false in forall x y : mv Z,
+  (1 <= length sig)%nat -> Forall (fun s => s = 1 \/ s = -1 \/ s = 0) sig -> 0 <= start ->
+  NoDup (keys x) -> incl (keys x) (canon_keys A) -> NoDup (keys y) -> incl (keys y) (canon_keys A) ->
+  asmatrix A (gp Zops A x y) = mat_mul (asmatrix A x) (asmatrix A y) /\
+  asmatrix A (add Zops A x y) = mat_add (asmatrix A x) (asmatrix A y) /\
+  mat_col 0 (asmatrix A x) = map (fun k => coeff Zops k x) (canon_keys A) /\
+  frommatrix A (asmatrix A x) = map (fun k => (k, coeff Zops k x)) (canon_keys A) /\
+  (asmatrix A x = asmatrix A y -> forall k, coeff Zops k x = coeff Zops k y).
+Proof. exact faithful_default_dim. Qed.
+Print Assumptions C18_faithful_default.
+
 (* ---- source pins: the functions whose hand-written model carries the theorems above are still, textually (after
    ast normalisation), the functions the model was validated against; an edit breaks Bridge/Pins_C18.v ---- *)
 From KV Require Bridge.Pins_C18.
